@@ -90,7 +90,7 @@ bool TextFile::readLine(String& s)
 		{
 			s[m] = '\0';
 			s.fix(m);
-			return false;
+			return m > 0; // a last line without a newline is a line: false only when nothing was read
 		}
 		n = (int)strlen(*s + m) + m;
 		if (s[n-1] == '\n') {
